@@ -125,7 +125,7 @@ func c01Op(c *Ctx, r *Report, a *Anchors) {
 					r.check("C01.OP", fnName(fn)+": a missing operation is not used", valPos(v), okNil, "the operation value can be nil (no operation of that name) where its fields are read")
 					continue
 				}
-				r.check("C01.OP", fnName(fn)+": operation source "+shortPath(vpath(lf.val)), valPos(lf.val), false, "the operation value has a source other than exe.Ops[opName] or the single-operation fallback")
+				r.flag("C01.OP", fnName(fn)+": operation source "+shortPath(vpath(lf.val)), valPos(lf.val), "the operation value has a source other than exe.Ops[opName] or the single-operation fallback")
 			}
 		}
 	}
@@ -306,7 +306,7 @@ func c01Key(c *Ctx, r *Report, a *Anchors) {
 				k++
 				key := fmt.Sprintf("%s: response map store #%d", fnName(f), k)
 				if f != a.field {
-					r.check("C01.KEY", key, mu.Pos(), false, "a response map is written outside the field resolver")
+					r.flag("C01.KEY", key, mu.Pos(), "a response map is written outside the field resolver")
 					continue
 				}
 				call, isCall := mu.Key.(*ssa.Call)
@@ -330,7 +330,7 @@ func c01Key(c *Ctx, r *Report, a *Anchors) {
 		for _, lf := range leaves {
 			base, owner, f, ok := loadOfField(lf.val)
 			if !ok || owner != "Field" || base != kf.Params[0] {
-				r.check("C01.KEY", "(*Field).key: returns "+shortPath(vpath(lf.val)), rt.Pos(), false, "key() may only return the receiver's Alias or Name")
+				r.flag("C01.KEY", "(*Field).key: returns "+shortPath(vpath(lf.val)), rt.Pos(), "key() may only return the receiver's Alias or Name")
 				continue
 			}
 			seen[f] = true
@@ -366,7 +366,7 @@ func c01Key(c *Ctx, r *Report, a *Anchors) {
 			case "Name":
 				r.check("C01.KEY", "(*Field).key: returns Name only when Alias is empty", rt.Pos(), aliasEmpty, "Name must be returned exactly when Alias is empty")
 			default:
-				r.check("C01.KEY", "(*Field).key: returns field "+f, rt.Pos(), false, "key() may only return Alias or Name")
+				r.flag("C01.KEY", "(*Field).key: returns field "+f, rt.Pos(), "key() may only return Alias or Name")
 			}
 		}
 	}
